@@ -74,6 +74,30 @@ CHECKS.update({
             "deterministic simulation: forced run failures, before/after observation equality", "§5 C33"),
 })
 
+ENGINE_D = "D (conc): real code built with shuttle sync primitives, one seeded schedule (random or PCT) per run"
+CHECKS.update({
+    "C15": (ENGINE_D, "exploration",
+            "Shuttle schedules of one updater (two real update cycles) against readers issuing full(), diff(), /json-delta and /json with bodies consumed chunk by chunk; every response pairs its serial with exactly that serial's data; not ready before the first run.",
+            "Sequentially consistent interleavings at lock operations and hook points only; RTR wire path not included.",
+            "deterministic simulation: seeded schedule exploration (shuttle random + PCT)", "§5 C15"),
+    "C16": (ENGINE_D, "exploration",
+            "Shuttle schedules of an updater installing new data against clients sending conditional requests with the previous version's validators (ETag, date, both), including the instant between installing data and marking the update done and same-second clocks; a 304 must carry the ETag of the version the validators belong to. Sequential histories are covered as a by-product of Engine C.",
+            "Scheduling points: history lock operations.",
+            "deterministic simulation: seeded schedule exploration (shuttle random + PCT)", "§5 C16"),
+    "C17": (ENGINE_D, "exploration",
+            "Shuttle schedules of a notify long-poll racing a data-changing update cycle; the request must complete with the new serial, a lost notification is detected as all tasks blocked (bounded liveness: quiescence).",
+            "Needs hook H12 (scheduling point between version check and subscription); tokio broadcast internals are not scheduler-visible.",
+            "deterministic simulation: seeded schedule exploration with deadlock detection", "§5 C17"),
+    "C36": (ENGINE_D, "exploration",
+            "Shuttle schedules of 2-4 tasks registering overlapping and new client addresses with scheduling points inside the ArcSwap-based registry (hook H10); list sorted and unique, per-address and global counts exact, zero after close.",
+            "Connection accounting through RtrClientMetrics as rtr.rs does; real sockets not involved.",
+            "deterministic simulation: seeded schedule exploration (shuttle random + PCT)", "§5 C36"),
+    "C37": (ENGINE_D, "exploration",
+            "Shuttle schedules of 2-3 tasks (standing for validation workers) calling the real collector Run::repository for CAs in the same and different rsync modules / RRDP repositories; fetch count per module/repository <= 1 (fake rsync log, simulated HTTP log) and data readable when repository() returns.",
+            "Fake rsync child process and simulated HTTP are atomic steps for the scheduler.",
+            "deterministic simulation: seeded schedule exploration (shuttle random + PCT)", "§5 C37"),
+})
+
 NOT_APPLICABLE = {
     "C11": "pure function of two data sets: no schedule, clock, fault, crash point or peer can change its outcome (DESIGN §5)",
     "C18": "serialiser: pure function of (change set, session, serials); no simulated dimension influences it",
